@@ -7,6 +7,9 @@ Modes (input "mode"):
      lazy : {id, ty, op, form, ops: [{k, n, sid, vals|v, src}], law, gen, how}
             -> adds tab (kernel over every tuple of operand leaves, first operand fastest) and O (the outcome
                of every next() of the traversal(s) of the composed object, until the end(s))
+     call : {id, ty, tpl, sigs, calls, ops: {u: [op, form], b: [op, form], n: [op, form]}, num}
+            -> adds leaves[k][c] (every base function alone at every call), tab (the numeric expression over every
+               tuple of calls, first function fastest) and O[c] (the composed function called with call c)
      range: {id, ty, fn, a: [{t, v}]}                      -> adds r, r2
      inv  : {id, ty, fn, k}                                -> adds r, rt
 No verdicts here: TLC (TraceOps.tla) decides.  Values are written as text ("i:3", "f:0x1.8p+1", "b:True",
@@ -578,6 +581,120 @@ def run_lazy(bi, c):
                 law=c['law'], gen=bool(c['gen']), tab=tab, O=O)
 
 
+# ------------------------------------------------------------------ function composites and call shapes
+DEFAULTS = {'p0': 7, 'a': 8, 'b': 6}
+WEIGHTS = {'p0': 1, 'a': 10, 'b': 100}
+
+
+def make_sig_function(k, names, fl):
+    """a Function with the given parameter names (all with defaults) whose value tells what was bound"""
+    from sc3.base.functions import Function
+    base = (k + 1) * 1000 + (0.5 if fl else 0)
+    params = ', '.join('%s=%d' % (n, DEFAULTS[n]) for n in names)
+    body = ' + '.join(['%r' % base] + ['%s * %d' % (n, WEIGHTS[n]) for n in names])
+    return Function(eval('lambda %s: %s' % (params, body)))
+
+
+def lifted(bi, op, form, *xs):
+    c = dict(op=op, form=form, ar=min(len(xs), 3), kb='none', pos=0)
+    if len(xs) == 1:
+        return compose(bi, c, xs[0], None, [])
+    if len(xs) == 2:
+        c['kb'] = 'x'
+        return compose(bi, c, xs[0], xs[1], [])
+    return compose(bi, c, xs[0], None, list(xs[1:]))
+
+
+def build_template(tpl, f, U, B, N, num_):
+    """f: base operands (functions or numbers); U/B/N apply the unary / binary / n-ary operator (lifted or numeric)"""
+    if tpl == 'un':
+        return U(f[0])
+    if tpl == 'bin':
+        return B(f[0], f[1])
+    if tpl == 'rbin':
+        return B(num_, f[0])
+    if tpl == 'nar':
+        return N(f[0], f[1], f[2])
+    if tpl == 'nar1':
+        return N(f[0], f[1], num_)
+    if tpl == 'nar2':
+        return N(f[0], num_, f[1])
+    if tpl == 'un-bin':
+        return U(B(f[0], f[1]))
+    if tpl == 'bin-un':
+        return B(f[0], U(f[1]))
+    if tpl == 'nar-comp':
+        return N(f[0], U(f[1]), B(f[2], f[3]))
+    if tpl == 'bin-nar':
+        return B(f[0], N(f[1], f[2], num_))
+    if tpl == 'nar-nar':
+        return N(f[0], N(f[1], f[2], num_), num_)
+    raise AssertionError(tpl)
+
+
+def run_call(bi, c):
+    sigs, calls, tpl = c['sigs'], c['calls'], c['tpl']
+    (uo, uf), (bo, bf), (no, nf) = c['ops']['u'], c['ops']['b'], c['ops']['n']
+    num_ = num(c['num'])
+    fl = c.get('fl', 0)
+    rb = tpl == 'rbin'
+    if rb and bf == 'dunder':
+        bo_l, bf_l = '__r' + bo[2:], 'rdunder'
+    elif rb and bf == 'method':         # a number has no such method: the module function with the number on the left
+        bo_l, bf_l = bo, 'builtin'
+    else:
+        bo_l, bf_l = bo, bf
+
+    def args_of(call):
+        return list(call['pos']), {e['n']: e['v'] for e in call['kw']}
+    nb, nc = len(sigs), len(calls)
+    raw = []
+    leaves = []
+    for k, names in enumerate(sigs):
+        fk = make_sig_function(k, names, fl and k % 2)
+        row, rawrow = [], []
+        for call in calls:
+            a, kw = args_of(call)
+            try:
+                v = fk(*a, **kw)
+                rawrow.append(v)
+                row.append(val(v))
+            except Exception as ex:         # the operand itself refuses the call: so must the composite
+                rawrow.append(ex)
+                row.append(exc(ex))
+        raw.append(rawrow)
+        leaves.append(row)
+    KU, KB, KN = kernel(bi, uo, uf), kernel(bi, bo_l, bf_l), kernel(bi, no, nf)
+    tab = []
+    for f in range(nc ** nb):
+        ix, r = [], f
+        for _ in range(nb):
+            ix.append(r % nc)
+            r //= nc
+        vals = [raw[k][ix[k]] for k in range(nb)]
+        failed = [v for v in vals if isinstance(v, Exception)]
+        try:
+            tab.append(exc(failed[0]) if failed else val(build_template(tpl, vals, KU, KB, KN, num_)))
+        except Exception as ex:
+            tab.append(exc(ex))
+    O = []
+    try:
+        fs = [make_sig_function(k, names, fl and k % 2) for k, names in enumerate(sigs)]
+        C = build_template(tpl, fs, lambda x: lifted(bi, uo, uf, x), lambda x, y: lifted(bi, bo_l, bf_l, x, y),
+                           lambda x, y, z: lifted(bi, no, nf, x, y, z), num_)
+        for call in calls:
+            a, kw = args_of(call)
+            try:
+                O.append(val(C(*a, **kw)))
+            except Exception as ex:
+                O.append(exc(ex))
+    except Exception as ex:
+        O = [exc(ex)] * nc
+    out = dict(c)
+    out.update(leaves=leaves, tab=tab, O=O)
+    return out
+
+
 # ------------------------------------------------------------------ kernel laws
 def lat(a):
     return a['v'] // 8 if a['t'] == 'i' else a['v'] / 8.0
@@ -654,6 +771,8 @@ def main():
             out.append(run_lift(bi, c))
         elif c['ty'] == 'lazy':
             out.append(run_lazy(bi, c))
+        elif c['ty'] == 'call':
+            out.append(run_call(bi, c))
         elif c['ty'] == 'range':
             out.append(run_range(bi, c))
         else:
